@@ -152,6 +152,9 @@ def build(S):
         S.contract("refinePoint[dispatch]", FN_REFINE, run_refine_dispatch, shape="-")
         for xp in ("none", "start-inner", "start-outer", "end-inner", "end-outer"):
             S.contract("fillRZ[xpoint=%s]" % xp, FN_FILL, run_fillRZ(xp), shape="nx=2, ny=2")
+        from . import C01_init
+
+        C01_init.add(S)
 
 
 def post(S):
